@@ -161,5 +161,7 @@ inline int engine_main(int argc, char **argv, Engine &eng) {
 } // namespace sim
 
 // Sanitizer defaults: distinct exit code, no leak checking (LSan floods under abort paths).
+#ifndef SIM_SECONDARY_TU
 extern "C" __attribute__((used)) const char *__asan_default_options() { return "exitcode=77:detect_leaks=0:allocator_may_return_null=1:detect_stack_use_after_return=0"; }
 extern "C" __attribute__((used)) const char *__ubsan_default_options() { return "halt_on_error=1:exitcode=77:print_stacktrace=1"; }
+#endif
